@@ -220,7 +220,8 @@ inductive ExtendRes where
 
 /-- `IoBufMutExt::extend_from_slice` (and `Writer::write`): `init = buf_len(); reserve(len)?;
 ptr = buf_mut_ptr() + init; copy; advance_to(init + len)`. The copy goes through a raw pointer: if it would
-leave the root allocation the result is `.fault .ub` (the harness does not perform such a copy). -/
+leave the root allocation the result is `.fault .ub` (the harness does not perform such a copy; a copy
+of zero bytes touches nothing). -/
 def Buf.extend (v : Buf) (data : Bytes) : ExtendRes :=
   match v.asInit with
   | .error f => .fault f
@@ -233,7 +234,7 @@ def Buf.extend (v : Buf) (data : Bytes) : ExtendRes :=
       match v.asUninit with
       | .error f => .fault f
       | .ok (o, _) =>
-        if o + init + data.length ≤ v.getRoot.cap then
+        if data.length = 0 ∨ o + init + data.length ≤ v.getRoot.cap then
           match (v.write (o + init) data).advanceTo (init + data.length) with
           | .ok v' => .done v'
           | .error f => .fault f
